@@ -89,7 +89,7 @@ class C13(Check):
         self._cliffords_1q = list(cirq.SingleQubitCliffordGate.all_single_qubit_cliffords)
 
     # -- generator -----------------------------------------------------------------------------------
-    def _gen(self, tape, ctx, allow_mixture: bool, deep: bool = False):
+    def _gen(self, tape, ctx, allow_mixture: bool, deep: bool = False, allow_reset: bool = False):
         cirq = self.cirq
         n = 1 + tape.weighted([2, 4, 4, 3, 2, 1], "n-qubits")
         if deep:
@@ -107,7 +107,7 @@ class C13(Check):
         half = [0.5, 1, -0.5, 1.5, 0, 2, -1, 2.5]
         shifts = [0, 0.5, -0.5, 0.25, -0.25, 1]
         for _ in range(n_ops):
-            k = tape.weighted([6, 5, 4, 2, 2, 1, 2 if allow_mixture else 0, 1], "kind")
+            k = tape.weighted([6, 5, 4, 2, 2, 1, 2 if allow_mixture else 0, 1, 2 if allow_reset else 0], "kind")
             q = qs[tape.draw(n, "q")]
             op = None
             if k == 0:
@@ -187,6 +187,13 @@ class C13(Check):
                     continue
                 bits += 2 if "depolarize" in repr(op) else 1
                 feats.add("mixture")
+            elif k == 8:
+                # reset: on a qubit entangled with others it is a random collapse (one draw per repetition)
+                if bits + 1 > 6:
+                    continue
+                bits += 1
+                op = cirq.ResetChannel().on(q)
+                feats.add("reset")
             elif k == 7:
                 coeff = [1j, -1, -1j, np.exp(1j * math.pi / 4), np.exp(-1j * math.pi / 2)][tape.draw(5, "gphase")]
                 op = cirq.global_phase_operation(coeff)
@@ -257,7 +264,8 @@ class C13(Check):
             return self._clifford_state(tape, ctx)
         allow_mixture = sut in ("simulate", "run", "ch-act_on", "tableau-act_on") and tape.chance(1, 3, "mixtures?")
         deep = sut == "tableau-act_on" and tape.chance(4, 5, "deep?")
-        circuit, qs, bits, feats = self._gen(tape, ctx, allow_mixture and not deep, deep=deep)
+        circuit, qs, bits, feats = self._gen(tape, ctx, allow_mixture and not deep, deep=deep,
+                                             allow_reset=sut in ("run", "stab-sampler"))
         if sut in ("run", "stab-sampler") and not circuit.has_measurements():
             circuit.append(cirq.measure(*qs[:2], key="z"))
             bits += min(2, len(qs))
@@ -274,7 +282,12 @@ class C13(Check):
             else:
                 cfg = qd.SimConfig("clifford" if sut == "run" else "stab-sampler", split=tape.chance(1, 3, "split?"))
                 reps = 1 + tape.draw(2 if bits <= 4 else 1, "reps")
-                n_leaves = qd.check_run(P, circuit, cfg, reps, ctx, max_leaves=300)
+                points = 1
+                if bits * reps <= 4 and tape.chance(1, 3, "unparameterized-sweep?"):
+                    points = 2      # run_sweep over a symbol the circuit does not use: independent samples
+                    ctx.probe("entry:run_sweep-unused-symbol")
+                n_leaves = qd.check_run(P, circuit, cfg, reps, ctx, max_leaves=300,
+                                        entry="run_sweep" if points > 1 else "run", sweep_points=points)
         else:
             n_leaves = self._stepwise(tape, ctx, circuit, qs, sut, "mixture" in feats, deep)
         ctx.decide("case", repr(circuit), sut, n_leaves)
